@@ -6,6 +6,11 @@
 (* *soft*: a recorded result that differs from the specification's adds a  *)
 (* tagged record to viol and the observed state is adopted, so the rest of *)
 (* the execution is still checked against what the library really holds.   *)
+(*                                                                         *)
+(* Known deviations of the implementation (DESIGN.md section 5) are named  *)
+(* operators below (Dev...): a disagreement that matches one is recorded   *)
+(* with kind "KF:<key>"; whether <key> is listed in known_findings.json is  *)
+(* decided by the checker - with the key not listed it is a violation.     *)
 (***************************************************************************)
 EXTENDS MddApi, Json, IOUtils
 
@@ -13,10 +18,9 @@ VARIABLES
     l,          \* next trace line
     ids,        \* slot |-> observed identity (node handle, edge value words)
     viol,       \* set of [p, l, k]: property tag, line, kind
-    known,      \* keys of known-deviation actions taken
     done
 
-tvars == <<vars, l, ids, viol, known, done>>
+tvars == <<vars, l, ids, viol, done>>
 
 TraceLog == ndJsonDeserialize(IOEnv.TRACE)
 
@@ -31,6 +35,34 @@ FnEq(a, b) ==
 
 HasOff(a) == \E i \in 1..Len(a) : a[i] = OffGrid
 
+ArithErrs == {"DIVIDE_BY_ZERO", "SUBTRACT_INFINITY", "INFINITY_DIV_INFINITY"}
+
+(***************************************************************************)
+(* Named deviations.  Each returns a key, or "" when it does not apply.    *)
+(***************************************************************************)
+
+\* DIVIDE / MODULO return a value although the divisor is zero somewhere:
+\* the recursion took a shortcut before reaching the zero divisor -
+\*   first-operand-zero : the dividend is 0 at every point where the divisor is 0
+\*   equal-operands     : dividend = divisor at every point where the divisor is 0
+\* and the returned table is right wherever the divisor is non-zero.
+DevDivShortcut(ev, out) ==
+    IF ~(ev.e = "Bin" /\ ev.op \in {"DIVIDE", "MODULO"} /\ ev.ok = 1 /\ ~out.ok
+         /\ out.errs = {"DIVIDE_BY_ZERO"} /\ Has(ev.res, "fn")
+         /\ LiveEdge(ev.a) /\ LiveEdge(ev.b)) THEN ""
+    ELSE
+    LET A == edges[ev.a].fn  B == edges[ev.b].fn  R == ev.res.fn
+        cls == Cls(fors[edges[ev.a].f])
+        one == IF IsReal(cls) THEN 64 ELSE 1
+        Z == {i \in DOMAIN B : B[i] = 0}
+        rest == \A i \in DOMAIN B \ Z :
+                    LET x == ScBin(ev.op, cls, A[i], B[i]) IN Bad(x) \/ Bad(R[i]) \/ x = R[i]
+    IN IF ~rest THEN ""
+       ELSE IF \A i \in Z : A[i] = 0 /\ R[i] = 0 THEN ev.op \o ":shortcut:first-operand-zero"
+       ELSE IF \A i \in Z : A[i] = B[i] /\ R[i] = (IF ev.op = "DIVIDE" THEN one ELSE 0)
+            THEN ev.op \o ":shortcut:equal-operands"
+       ELSE ""
+
 \* compare the specification's outcome with the recorded one
 OutcomeViol(out, ev, p) ==
     IF out.err = "unmodelled" THEN {}
@@ -40,8 +72,12 @@ OutcomeViol(out, ev, p) ==
               ELSE IF FnEq(out.fn, ev.res.fn) THEN {}
               ELSE {V(p, "wrong-function")}
          ELSE {V(p, "unexpected-error-" \o ev.err)}
-    ELSE IF ev.ok = 1 THEN {V("C16", "no-error-raised-expected-" \o out.err)}
-         ELSE IF out.err = "ANY" \/ out.err = ev.err THEN {}
+    ELSE IF ev.ok = 1
+         THEN LET k == DevDivShortcut(ev, out) IN
+              IF k # "" THEN {V(p, "KF:" \o k)}
+              ELSE {V("C16", "no-error-raised-expected-" \o out.err)}
+                   \cup (IF out.errs \subseteq ArithErrs THEN {V(p, "no-error-raised-expected-" \o out.err)} ELSE {})
+         ELSE IF "ANY" \in out.errs \/ ev.err \in out.errs THEN {}
               ELSE {V("C16", "wrong-error-code-" \o ev.err \o "-expected-" \o out.err)}
 
 \* adopt what the library reports for slot s
@@ -70,8 +106,7 @@ CanonViol(s, res) ==
 PropOfBin(op) ==
     CASE op \in {"UNION", "INTERSECTION", "DIFFERENCE", "CROSS"} -> "C04"
       [] op \in {"PRE_IMAGE", "POST_IMAGE", "VM_MULTIPLY", "MV_MULTIPLY"} -> "C09"
-      [] op \in {"REACH_FS_F", "REACH_FS_B", "REACH_NOFS_F", "REACH_NOFS_B",
-                 "REACH_SAT_F", "REACH_SAT_B"} -> "C08"
+      [] op \in ReachOps -> "C08"
       [] OTHER -> "C05"
 
 PropOfUn(op) ==
@@ -87,8 +122,8 @@ Same(S) == UNCHANGED S
 
 DoReset(ev) ==
     /\ lib' = FALSE /\ doms' = << >> /\ fors' = << >> /\ edges' = << >>
-    /\ nextFid' = 1 /\ err' = "ok" /\ ids' = << >>
-    /\ Same(<<viol, known>>)
+    /\ nextFid' = 1 /\ err' = "ok" /\ ids' = << >> /\ files' = << >>
+    /\ Same(<<viol>>)
 
 DoInit(ev) ==
     /\ lib' = (ev.ok = 1 \/ lib)
@@ -97,8 +132,9 @@ DoInit(ev) ==
     /\ viol' = viol \cup
          (IF lib /\ ev.ok = 1 THEN {V("C17", "double-initialize-accepted")}
           ELSE IF ~lib /\ ev.ok = 0 THEN {V("C17", "initialize-failed-" \o ev.err)}
+          ELSE IF lib /\ ev.ok = 0 /\ ev.err # "ALREADY_INITIALIZED" THEN {V("C16", "wrong-error-code-" \o ev.err)}
           ELSE {})
-    /\ Same(<<doms, fors, edges, ids, known>>)
+    /\ Same(<<doms, fors, edges, ids, files>>)
 
 DoCleanup(ev) ==
     /\ IF ev.ok = 1
@@ -112,14 +148,15 @@ DoCleanup(ev) ==
     /\ viol' = viol \cup
          (IF lib /\ ev.ok = 0 THEN {V("C17", "cleanup-failed-" \o ev.err)}
           ELSE IF ~lib /\ ev.ok = 1 THEN {V("C17", "cleanup-of-uninitialised-accepted")}
+          ELSE IF ~lib /\ ev.ok = 0 /\ ev.err # "UNINITIALIZED" THEN {V("C16", "wrong-error-code-" \o ev.err)}
           ELSE {})
-    /\ Same(<<nextFid, known>>)
+    /\ Same(<<nextFid, files>>)
 
 DoDom(ev) ==
     /\ doms' = IF ev.ok = 1 THEN (ev.d :> [sizes |-> ev.sizes, alive |-> TRUE]) @@ doms ELSE doms
     /\ err' = IF ev.ok = 1 THEN "ok" ELSE ev.err
     /\ viol' = viol \cup (IF lib /\ ev.ok = 0 THEN {V("C17", "create-domain-failed-" \o ev.err)} ELSE {})
-    /\ Same(<<lib, fors, edges, nextFid, ids, known>>)
+    /\ Same(<<lib, fors, edges, nextFid, ids, files>>)
 
 DoDDom(ev) ==
     /\ IF ev.ok = 1
@@ -132,7 +169,7 @@ DoDDom(ev) ==
        ELSE Same(<<doms, fors, edges>>)
     /\ err' = IF ev.ok = 1 THEN "ok" ELSE ev.err
     /\ viol' = viol \cup (IF ev.ok = 0 THEN {V("C17", "destroy-domain-failed-" \o ev.err)} ELSE {})
-    /\ Same(<<lib, nextFid, ids, known>>)
+    /\ Same(<<lib, nextFid, ids, files>>)
 
 DoFor(ev) ==
     LET rel   == ev.rel = 1
@@ -140,7 +177,8 @@ DoFor(ev) ==
     IN
     /\ IF ev.ok = 1
        THEN /\ fors' = (ev.f :> [d |-> ev.d, rel |-> rel, rng |-> ev.rng, lab |-> ev.lab,
-                                rule |-> ev.rule, alive |-> TRUE, fid |-> ev.fid]) @@ fors
+                                rule |-> ev.rule, alive |-> TRUE, fid |-> ev.fid,
+                                l2v |-> [k \in 1..Len(doms[ev.d].sizes) |-> k]]) @@ fors
             /\ nextFid' = ev.fid + 1
        ELSE Same(<<fors, nextFid>>)
     /\ err' = IF ev.ok = 1 THEN "ok" ELSE ev.err
@@ -151,7 +189,7 @@ DoFor(ev) ==
                      THEN {V("C17", "forest-id-shared")} ELSE {})
                \cup (IF ~valid THEN {V("C16", "invalid-forest-kind-accepted")} ELSE {})
           ELSE IF valid THEN {V("C17", "create-forest-failed-" \o ev.err)} ELSE {})
-    /\ Same(<<lib, doms, edges, ids, known>>)
+    /\ Same(<<lib, doms, edges, ids, files>>)
 
 DoDFor(ev) ==
     /\ IF ev.ok = 1
@@ -160,7 +198,7 @@ DoDFor(ev) ==
        ELSE Same(<<fors, edges>>)
     /\ err' = IF ev.ok = 1 THEN "ok" ELSE ev.err
     /\ viol' = viol \cup (IF ev.ok = 0 THEN {V("C17", "destroy-forest-failed-" \o ev.err)} ELSE {})
-    /\ Same(<<lib, doms, nextFid, ids, known>>)
+    /\ Same(<<lib, doms, nextFid, ids, files>>)
 
 \* New / Copy / Asg / Attach: the slot takes what the specification says; the
 \* observation must agree
@@ -178,7 +216,7 @@ DoNew(ev) ==
        ELSE /\ Same(<<edges, ids>>)
             /\ viol' = viol \cup {V("C17", "new-edge-failed-" \o ev.err)}
     /\ err' = IF ev.ok = 1 THEN "ok" ELSE ev.err
-    /\ Same(<<lib, doms, fors, nextFid, known>>)
+    /\ Same(<<lib, doms, fors, nextFid, files>>)
 
 DoCopy(ev) ==
     /\ IF ev.ok = 1
@@ -190,7 +228,7 @@ DoCopy(ev) ==
        ELSE /\ Same(<<edges, ids>>)
             /\ viol' = viol \cup {V("C06", "copy-edge-failed-" \o ev.err)}
     /\ err' = IF ev.ok = 1 THEN "ok" ELSE ev.err
-    /\ Same(<<lib, doms, fors, nextFid, known>>)
+    /\ Same(<<lib, doms, fors, nextFid, files>>)
 
 DoAsg(ev) == DoCopy(ev)
 
@@ -202,14 +240,14 @@ DoAttach(ev) ==
        ELSE /\ Same(<<edges, ids>>)
             /\ viol' = viol \cup {V("C17", "attach-failed-" \o ev.err)}
     /\ err' = IF ev.ok = 1 THEN "ok" ELSE ev.err
-    /\ Same(<<lib, doms, fors, nextFid, known>>)
+    /\ Same(<<lib, doms, fors, nextFid, files>>)
 
 DoDel(ev) ==
     /\ edges' = [t \in DOMAIN edges \ {ev.s} |-> edges[t]]
     /\ ids' = [t \in DOMAIN ids \ {ev.s} |-> ids[t]]
     /\ err' = IF ev.ok = 1 THEN "ok" ELSE ev.err
     /\ viol' = viol \cup (IF ev.ok = 0 THEN {V("C06", "delete-edge-failed-" \o ev.err)} ELSE {})
-    /\ Same(<<lib, doms, fors, nextFid, known>>)
+    /\ Same(<<lib, doms, fors, nextFid, files>>)
 
 \* a call that writes a function into slot s (constructions and operations)
 Result(s, out, ev, p) ==
@@ -220,16 +258,37 @@ Result(s, out, ev, p) ==
        ELSE /\ Same(<<edges, ids>>)
             /\ viol' = viol \cup OutcomeViol(out, ev, p)
     /\ err' = IF ev.ok = 1 THEN "ok" ELSE ev.err
-    /\ Same(<<lib, doms, fors, nextFid, known>>)
+    /\ Same(<<lib, doms, fors, nextFid, files>>)
+
+\* distance functions in multi-terminal forests: every negative value means
+\* "unreachable", so such results are compared after mapping negatives to -1
+DistanceCall(ev) ==
+    /\ ev.e = "Bin" /\ ev.op \in ReachOps \cup {"PRE_IMAGE", "POST_IMAGE"}
+    /\ LiveEdge(ev.a) /\ fors[edges[ev.a].f].lab = "MT" /\ fors[edges[ev.a].f].rng = "I"
+
+NormOut(out, ev) == IF out.ok /\ out.err # "unmodelled" /\ DistanceCall(ev)
+                    THEN [out EXCEPT !.fn = NegClass(out.fn)] ELSE out
+NormEv(ev) == IF DistanceCall(ev) /\ ev.ok = 1 /\ Has(ev.res, "fn")
+              THEN [ev EXCEPT !.res.fn = NegClass(ev.res.fn)] ELSE ev
 
 DoColl(ev)  == Result(ev.s, CollOutcome(ev.s, ev.f, ev.mode, ev.deflt, ev.mts), ev, "C03")
 DoConst(ev) == Result(ev.s, ConstOutcome(ev.s, ev.f, ev.v), ev, "C03")
 DoVar(ev)   == Result(ev.s, VarOutcome(ev.s, ev.f, ev.vh, ev.pr = 1, ev.terms), ev, "C03")
-DoBin(ev)   == Result(ev.r, BinaryOutcome(ev.op, ev.r, ev.a, ev.b), ev, PropOfBin(ev.op))
+DoBin(ev)   == LET out == BinaryOutcome(ev.op, ev.r, ev.a, ev.b) IN
+               /\ IF ev.ok = 1
+                  THEN /\ edges' = AdoptEdge(ev.r, ev.res)
+                       /\ ids' = AdoptId(ev.r, ev.res)
+                       /\ viol' = viol \cup OutcomeViol(NormOut(out, ev), NormEv(ev), PropOfBin(ev.op)) \cup CanonViol(ev.r, ev.res)
+                  ELSE /\ Same(<<edges, ids>>)
+                       /\ viol' = viol \cup OutcomeViol(out, ev, PropOfBin(ev.op))
+               /\ err' = IF ev.ok = 1 THEN "ok" ELSE ev.err
+               /\ Same(<<lib, doms, fors, nextFid, files>>)
 DoUn(ev)    == Result(ev.r, UnaryOutcome(ev.op, ev.r, ev.a), ev, PropOfUn(ev.op))
+DoSat(ev)   == Result(ev.r, SatOutcome(ev.r, ev.init, ev.evs), ev, "C20")
 
 \* Obs: every listed edge must still be attached where the specification says
-\* and denote the function the specification holds for it
+\* and denote the function the specification holds for it; afterwards the
+\* observation is adopted
 ObsViol(E) ==
     UNION { IF E[x].s \in DOMAIN edges
             THEN EdgeViol(edges[E[x].s], E[x], "HELD")
@@ -244,14 +303,151 @@ ObsCanonViol(E) ==
 
 DoObs(ev) ==
     /\ viol' = viol \cup ObsViol(ev.E) \cup ObsCanonViol(ev.E)
-    /\ Same(<<vars, ids, known>>)
+    /\ edges' = [s \in DOMAIN edges |->
+                    IF \E x \in 1..Len(ev.E) : ev.E[x].s = s
+                    THEN Observed(ev.E[CHOOSE x \in 1..Len(ev.E) : ev.E[x].s = s]) ELSE edges[s]]
+    /\ ids' = [s \in DOMAIN ids |->
+                    IF \E x \in 1..Len(ev.E) : ev.E[x].s = s /\ Has(ev.E[x], "id")
+                    THEN ev.E[CHOOSE x \in 1..Len(ev.E) : ev.E[x].s = s /\ Has(ev.E[x], "id")].id ELSE ids[s]]
+    /\ Same(<<lib, doms, fors, nextFid, files, err>>)
+
+\* queries: no state change; the answer must be the specification's
+Query(vs) ==
+    /\ viol' = viol \cup vs
+    /\ Same(<<vars, ids>>)
+
+KnownFn(a) == LiveEdge(a) /\ ~HasOff(edges[a].fn)
+FOf(a) == fors[edges[a].f]
+
+DoCard(ev) ==
+    Query(IF ~LiveEdge(ev.a) THEN (IF ev.ok = 1 THEN {V("C16", "cardinality-of-detached-edge-accepted")} ELSE {})
+          ELSE IF ev.ok = 0 THEN {V("C11", "cardinality-failed-" \o ev.err)}
+          ELSE IF ~KnownFn(ev.a) THEN {}
+          ELSE LET c == CardFn(edges[ev.a].fn, Transparent(FOf(ev.a))) IN
+               (IF ev.cl # c THEN {V("C11", "cardinality-long")} ELSE {}) \cup
+               (IF ev.cd # c THEN {V("C11", "cardinality-double")} ELSE {}) \cup
+               (IF ev.cz # c THEN {V("C11", "cardinality-mpz")} ELSE {}))
+
+DoRng(ev) ==
+    Query(IF ~LiveEdge(ev.a) THEN (IF ev.ok = 1 THEN {V("C16", "range-of-detached-edge-accepted")} ELSE {})
+          ELSE IF ~(FOf(ev.a).lab = "MT" /\ FOf(ev.a).rng \in {"I", "R"}) THEN {}
+          ELSE IF ev.ok = 0 THEN {V("C05", "range-query-failed-" \o ev.err)}
+          ELSE LET x == IF ev.which = "MAX" THEN MaxRange(edges[ev.a].fn) ELSE MinRange(edges[ev.a].fn) IN
+               IF Bad(x) \/ Bad(ev.v) \/ x = ev.v THEN {} ELSE {V("C05", "wrong-range-value")})
+
+DoIter(ev) ==
+    Query(IF ~LiveEdge(ev.a) THEN (IF ev.ok = 1 THEN {V("C16", "iteration-of-detached-edge-accepted")} ELSE {})
+          ELSE IF ev.deref = 1
+               THEN (IF ev.ok = 1 THEN {V("C16", "dereferencing-exhausted-iterator-accepted")}
+                     ELSE IF ev.err # "INVALID_ITERATOR" THEN {V("C16", "wrong-error-code-" \o ev.err \o "-expected-INVALID_ITERATOR")}
+                     ELSE {})
+          ELSE IF ev.ok = 0 THEN {V("C11", "iteration-failed-" \o ev.err)}
+          ELSE IF ~KnownFn(ev.a) THEN {}
+          ELSE LET F == FOf(ev.a)
+                   want == IterSeq(edges[ev.a].fn, Transparent(F), ev.mask, Sizes(F), F.rel)
+               IN IF want = ev.seq THEN {} ELSE {V("C11", "wrong-iteration-sequence")})
+
+DoElem(ev) ==
+    Query(IF ~LiveEdge(ev.a) \/ FOf(ev.a).lab # "IX" THEN {}
+          ELSE IF ev.ok = 0 THEN {V("C15", "get-element-failed-" \o ev.err)}
+          ELSE IF ~KnownFn(ev.a) THEN {}
+          ELSE LET r == ElemOf(edges[ev.a].fn, ev.i) IN
+               IF (ev.found = 1) # (r >= 0) THEN {V("C15", "get-element-found-flag")}
+               ELSE IF r >= 0 /\ ev.rank # r THEN {V("C15", "get-element-wrong-member")} ELSE {})
+
+DoICard(ev) ==
+    Query(IF ~LiveEdge(ev.a) \/ FOf(ev.a).lab # "IX" \/ ~KnownFn(ev.a) THEN {}
+          ELSE IF ev.ok = 0 THEN {V("C15", "index-set-cardinality-failed-" \o ev.err)}
+          ELSE IF ev.c # CardFn(edges[ev.a].fn, Inf) THEN {V("C15", "index-set-cardinality")} ELSE {})
+
+DoEvalAt(ev) ==
+    Query(IF ~LiveEdge(ev.a)
+          THEN (IF ev.ok = 1 THEN {V("C16", "evaluation-of-detached-edge-accepted")} ELSE {})
+          ELSE {})
+
+DoBulk(ev) ==
+    Query(IF ev.ok = 0 THEN {V("C06", "edge-copies-failed-" \o ev.err)}
+          ELSE IF ev.before < 0 THEN {}
+          ELSE IF ev.mid # ev.before + ev.k THEN {V("C06", "incoming-count-after-copies")}
+          ELSE IF ev.after # ev.before THEN {V("C06", "incoming-count-after-releases")} ELSE {})
+
+DoCache(ev) == Query(IF ev.ok = 0 THEN {V("C07", "cache-maintenance-failed-" \o ev.err)} ELSE {})
+
+\* reordering: the specification permutes every edge of the forest; what the
+\* library really holds is compared at the next Obs
+DoReorder(ev) ==
+    IF ev.ok = 1
+    THEN /\ edges' = ReorderedEdges(ev.f, ev.now)
+         /\ fors' = [fors EXCEPT ![ev.f].l2v = ev.now]
+         /\ viol' = viol \cup (IF ev.now # ev.l2v THEN {V("C13", "requested-order-not-established")} ELSE {})
+         /\ err' = "ok"
+         /\ Same(<<lib, doms, nextFid, files, ids>>)
+    ELSE /\ viol' = viol \cup {V("C13", "reorder-failed-" \o ev.err)}
+         /\ err' = ev.err
+         /\ Same(<<lib, doms, fors, edges, nextFid, files, ids>>)
+
+DoWrite(ev) ==
+    IF ev.ok = 1
+    THEN /\ files' = (ev.b :> [kind |-> KindOf(fors[ev.f]), sizes |-> FSizes(ev.f),
+                               fns |-> [x \in 1..Len(ev.es) |-> edges[ev.es[x]].fn]]) @@ files
+         /\ err' = "ok"
+         /\ Same(<<lib, doms, fors, edges, nextFid, ids, viol>>)
+    ELSE /\ viol' = viol \cup {V("C14", "write-failed-" \o ev.err)}
+         /\ err' = ev.err
+         /\ Same(<<lib, doms, fors, edges, nextFid, files, ids>>)
+
+ReadViol(ev, f) ==
+    UNION { LET want == [f |-> f, fn |-> files[ev.b].fns[x]] IN EdgeViol(want, ev.res[x], "C14")
+            : x \in 1..Len(ev.res) }
+
+AdoptRead(ev) ==
+    /\ edges' = [s \in DOMAIN edges \cup {ev.res[x].s : x \in 1..Len(ev.res)} |->
+                    IF \E x \in 1..Len(ev.res) : ev.res[x].s = s
+                    THEN Observed(ev.res[CHOOSE x \in 1..Len(ev.res) : ev.res[x].s = s
+                                          /\ \A y \in 1..Len(ev.res) : ev.res[y].s = s => y <= x])
+                    ELSE edges[s]]
+    /\ ids' = [s \in DOMAIN ids \cup {ev.res[x].s : x \in 1..Len(ev.res)} |->
+                    IF \E x \in 1..Len(ev.res) : ev.res[x].s = s
+                    THEN ev.res[CHOOSE x \in 1..Len(ev.res) : ev.res[x].s = s
+                                 /\ \A y \in 1..Len(ev.res) : ev.res[y].s = s => y <= x].id
+                    ELSE ids[s]]
+
+DoRead(ev) ==
+    IF ev.ok = 1
+    THEN /\ viol' = viol \cup ReadViol(ev, ev.f)
+                         \cup (IF ev.nroots # Len(files[ev.b].fns) THEN {V("C14", "wrong-number-of-roots")} ELSE {})
+         /\ AdoptRead(ev)
+         /\ err' = "ok"
+         /\ Same(<<lib, doms, fors, nextFid, files>>)
+    ELSE /\ viol' = viol \cup (IF KindOf(fors[ev.f]) = files[ev.b].kind /\ FSizes(ev.f) = files[ev.b].sizes
+                               THEN {V("C14", "read-failed-" \o ev.err)} ELSE {})
+         /\ err' = ev.err
+         /\ Same(<<lib, doms, fors, edges, nextFid, files, ids>>)
+
+DoReadNew(ev) ==
+    IF ev.ok = 1
+    THEN LET k == files[ev.b].kind IN
+         /\ fors' = (ev.fnew :> [d |-> ev.d, rel |-> ev.rel = 1, rng |-> ev.rng, lab |-> ev.lab,
+                                 rule |-> ev.rule, alive |-> TRUE, fid |-> ev.fid,
+                                 l2v |-> [j \in 1..Len(doms[ev.d].sizes) |-> j]]) @@ fors
+         /\ nextFid' = ev.fid + 1
+         /\ viol' = viol \cup ReadViol(ev, ev.fnew)
+                         \cup (IF [rel |-> ev.rel = 1, rng |-> ev.rng, lab |-> ev.lab] # k
+                               THEN {V("C14", "forest-created-from-file-has-wrong-kind")} ELSE {})
+                         \cup (IF ev.fid < nextFid THEN {V("C17", "forest-id-reused")} ELSE {})
+         /\ AdoptRead(ev)
+         /\ err' = "ok"
+         /\ Same(<<lib, doms, files>>)
+    ELSE /\ viol' = viol \cup {V("C14", "read-failed-" \o ev.err)}
+         /\ err' = ev.err
+         /\ Same(<<lib, doms, fors, edges, nextFid, files, ids>>)
 
 DoCrash(ev) ==
     /\ viol' = viol \cup {V("CRASH", ev.cmd)}
-    /\ Same(<<vars, ids, known>>)
+    /\ Same(<<vars, ids>>)
 
 Ignored == {"NewNode", "DelNode", "Recycle", "CTAdd", "CTHit", "CTDel", "Snap", "End", "Tag",
-            "ClearCT", "RmStale", "ClearAll", "Bulk"}
+            "MReq", "MRec"}
 
 Step ==
     /\ l <= Len(TraceLog)
@@ -274,24 +470,37 @@ Step ==
          [] ev.e = "Var"     -> DoVar(ev)
          [] ev.e = "Bin"     -> DoBin(ev)
          [] ev.e = "Un"      -> DoUn(ev)
+         [] ev.e = "Sat"     -> DoSat(ev)
          [] ev.e = "Obs"     -> DoObs(ev)
+         [] ev.e = "Card"    -> DoCard(ev)
+         [] ev.e = "Rng"     -> DoRng(ev)
+         [] ev.e = "Iter"    -> DoIter(ev)
+         [] ev.e = "Elem"    -> DoElem(ev)
+         [] ev.e = "ICard"   -> DoICard(ev)
+         [] ev.e = "EvalAt"  -> DoEvalAt(ev)
+         [] ev.e = "Bulk"    -> DoBulk(ev)
+         [] ev.e \in {"ClearCT", "RmStale", "ClearAll"} -> DoCache(ev)
+         [] ev.e = "Reorder" -> DoReorder(ev)
+         [] ev.e = "Write"   -> DoWrite(ev)
+         [] ev.e = "Read"    -> DoRead(ev)
+         [] ev.e = "ReadNew" -> DoReadNew(ev)
          [] ev.e = "Crash"   -> DoCrash(ev)
-         [] ev.e \in Ignored -> Same(<<vars, ids, viol, known>>)
+         [] ev.e \in Ignored -> Same(<<vars, ids, viol>>)
          [] OTHER            -> /\ viol' = viol \cup {V("MODEL", "unknown-event-" \o ev.e)}
-                                /\ Same(<<vars, ids, known>>)
+                                /\ Same(<<vars, ids>>)
     /\ l' = l + 1
     /\ done' = FALSE
 
 Finish ==
     /\ l = Len(TraceLog) + 1
     /\ ~done
-    /\ PrintT(<<"RESULT", ToJson([lines |-> Len(TraceLog), viol |-> viol, known |-> known])>>)
+    /\ PrintT(<<"RESULT", ToJson([lines |-> Len(TraceLog), viol |-> viol])>>)
     /\ done' = TRUE
-    /\ Same(<<vars, l, ids, viol, known>>)
+    /\ Same(<<vars, l, ids, viol>>)
 
 TraceInit ==
     /\ Init
-    /\ l = 1 /\ ids = << >> /\ viol = {} /\ known = {} /\ done = FALSE
+    /\ l = 1 /\ ids = << >> /\ viol = {} /\ done = FALSE
 
 TraceNext == Step \/ Finish
 
